@@ -173,6 +173,7 @@ func Run(cfg Config, body func()) *Result {
 		cfg.MaxSteps = 100000
 	}
 	execCounter++
+	startWatchdog()
 	s := &Sched{cfg: cfg, res: &Result{}, finished: make(chan struct{}), locs: make(map[uintptr]*locState, 32), execID: execCounter}
 	s.res.Points = make([]PointRec, 0, 128)
 	s.res.Choices = make([]int, 0, 128)
@@ -298,6 +299,7 @@ func (t *Thread) isEnabled(s *Sched) bool {
 
 // schedule picks the next thread to run. cur is parked at a point (or done).
 func (s *Sched) schedule(cur *Thread, exiting bool) {
+	beat()
 	if s.steps >= s.cfg.MaxSteps {
 		s.res.Capped = true
 		s.end(cur)
@@ -553,8 +555,13 @@ func Go(fn func()) {
 // of an execution without that being a deadlock.
 func GoNamed(name string, daemon bool, fn func()) *Thread {
 	s := S
-	if s == nil || s.aborting {
+	if s == nil {
 		go fn()
+		return nil
+	}
+	if s.aborting {
+		// a goroutine started by a deferred call while its thread is being torn down must not run: it would
+		// execute zerolog code outside any execution and collide with the next one
 		return nil
 	}
 	t := s.newThread(name)
